@@ -19,12 +19,18 @@ type faultFile struct {
 	// then an error is returned.
 	failAfter int
 	armed     bool
+	// skip: number of writes to let through before the armed one.
+	skip int
 }
 
 var errFileInjected = errors.New("verif: injected file write failure")
 
 func (f *faultFile) Write(p []byte) (int, error) {
 	if !f.armed {
+		return f.File.Write(p)
+	}
+	if f.skip > 0 {
+		f.skip--
 		return f.File.Write(p)
 	}
 	f.armed = false
@@ -66,4 +72,28 @@ func injectFile(store any) (ff *faultFile, err error) {
 	ff = &faultFile{File: cur}
 	fld.Set(reflect.ValueOf(headerfs.File(ff)))
 	return ff, nil
+}
+
+// ArmFileFault makes the nth write (1 = the next one) to the flat file of the
+// given header store fail after cut bytes (cut is taken modulo the length of
+// that write plus one by the caller's choice of values; a cut beyond the
+// write's length fails after the whole write). It returns a function telling
+// whether the fault has fired.
+func ArmFileFault(store any, nth, cut int) (fired func() bool, err error) {
+	ff, err := injectFile(store)
+	if err != nil {
+		return nil, err
+	}
+	if nth < 1 {
+		nth = 1
+	}
+	ff.failAfter, ff.skip, ff.armed = cut, nth-1, true
+	return func() bool { return !ff.armed }, nil
+}
+
+// DisarmFileFault removes a fault that has not fired.
+func DisarmFileFault(store any) {
+	if ff, err := injectFile(store); err == nil {
+		ff.armed = false
+	}
 }
